@@ -127,17 +127,17 @@ func (e *Encoder) writeObject(data interface{}) (int, error) {
 	// object data MUST not be unpacked
 	vv := reflect.ValueOf(data)
 
+	// check date type for date is a struct; a date is not a container and takes no ref ordinal
+	if date, ok := UnpackPtrValue(vv).Interface().(time.Time); ok {
+		return e.writeBytes(encodeDate(date))
+	}
+
 	// check ref
 	if n, ok := e.checkEncodeRefMap(vv); ok {
 		return e.writeRef(n)
 	}
 
 	vv = UnpackPtrValue(vv)
-
-	// check date type for date is a struct
-	if date, ok := vv.Interface().(time.Time); ok {
-		return e.writeBytes(encodeDate(date))
-	}
 
 	typ := vv.Type()
 	clsName, ok := e.nameMap[typ.Name()]
